@@ -159,7 +159,11 @@ def build_atoms(case):
     a.set_array("uid", np.array([r[8] for r in rows], dtype=np.int64))
     a.set_initial_charges(np.array([r[9] for r in rows], dtype=float))
     a.set_array("c2", np.array([r[10:12] for r in rows], dtype=float).reshape(n, 2))
-    if case["fixed"] is not None:
+    if case.get("constraint") == "fixcom":
+        from ase.constraints import FixCom
+
+        a.set_constraint(FixCom())  # a collective constraint: adjusting one atom shifts all the others
+    elif case["fixed"] is not None:
         a.set_constraint(FixAtoms(indices=list(case["fixed"])))
     return a
 
@@ -220,7 +224,7 @@ KINDCHAR = {"disp": "D", "exch": "X", "cell": "C", "ham": "H", "user": "U"}
 class Sim:
     """a real quansino simulation assembled from a case dictionary"""
 
-    def __init__(self, case, calc_factory=make_calc):
+    def __init__(self, case, calc_factory=make_calc, pre_validate=None):
         import quansino.mc  # noqa: F401  (import order, see C08)
         from quansino.mc.canonical import Canonical, HamiltonianCanonical
         from quansino.mc.core import MonteCarlo
@@ -327,6 +331,8 @@ class Sim:
             mc.add_move(self.tracker, criteria=ScriptedCriteria(), name="_tracker")
         self.current = None
         mc.yield_moves = lambda: iter([self.current])
+        if pre_validate is not None:
+            pre_validate(self)
         with warnings.catch_warnings():
             warnings.simplefilter("ignore")
             mc.validate_simulation()
@@ -356,7 +362,7 @@ class Sim:
 
     def fixed(self):
         cons = self.atoms.constraints
-        if not cons:
+        if not cons or type(cons[0]).__name__ != "FixAtoms":
             return None
         return [int(i) for i in cons[0].index]
 
@@ -459,7 +465,7 @@ def model_line(case):
                      "N", str(case.get("nexch", 0)), "M", lastmom, "H", *objs, "E", *ents, "R", *trials])
 
 
-def run_real(case, calc_factory=make_calc, hooks=None):
+def run_real(case, calc_factory=make_calc, hooks=None, snap=True):
     """run every trial on the real code; returns snapshots, per-trial before/after full states"""
     sim = Sim(case, calc_factory)
     out = {"snapshots": [], "outcomes": [], "before": [], "after": [], "rnglog": [], "consumed": [], "extra": []}
@@ -480,7 +486,8 @@ def run_real(case, calc_factory=make_calc, hooks=None):
             out["trace"] = traceback.format_exc()[-1200:]
             break
         out["outcomes"].append(o)
-        out["snapshots"].append(sim.snapshot(o))
+        if snap:
+            out["snapshots"].append(sim.snapshot(o))
         out["before"].append(before)
         out["after"].append(sim.full_state())
         out["rnglog"].append(list(sim.rng.log))
